@@ -24,7 +24,9 @@ import (
 	"os"
 	"path/filepath"
 	"sort"
+	"strconv"
 	"strings"
+	"sync"
 	"time"
 
 	"github.com/gin-gonic/gin"
@@ -476,6 +478,112 @@ func genAuth(o genOpts, w *bufio.Writer) {
 		fmt.Fprintf(w, "auth probe %s POST %s none\n", name, hexOf([]byte("/chargingdata")))
 		genAuthHistories(o, w, name, facts)
 	}
+	// requests at the same moment (the SBI server runs one goroutine per request): tokens signed by the NRF key and tokens that
+	// are not, on one route, all at once; then the bad tokens again one by one
+	rounds := 150
+	if o.tier == "thorough" {
+		rounds = 3000
+	}
+	for _, l := range serviceLists() {
+		if len(l) != 1 {
+			continue
+		}
+		_, facts := buildRouter(l)
+		if len(facts) == 0 {
+			continue
+		}
+		f := facts[len(facts)-1]
+		fmt.Fprintf(w, "auth conc %s %s %s %d\n", l[0], f.Method, hexOf([]byte(f.Path)), rounds)
+	}
+	fmt.Fprintf(w, "auth end\n")
+}
+
+// auth conc <service> <method> <hexpath> <rounds>: per round 4 requests with a valid token and 4 with a token that is not
+// signed by the NRF key (2 kinds) are served at the same moment, then each bad token once more on its own.
+// observation: conc bad=<requests with a bad token> accepted=<those not answered 401> [first=<kind>:<status>:<when>]
+func runAuthConc(t []string) string {
+	if len(t) != 5 {
+		return "bad-op"
+	}
+	rounds, err := strconv.Atoi(t[4])
+	if err != nil || rounds < 1 || rounds > 100000 {
+		return "bad-op"
+	}
+	setupNrfCert()
+	eng, ok := authRouters[t[1]]
+	if !ok {
+		chf_context.GetSelf().OAuth2Required = false
+		eng, _ = buildRouter(strings.Split(t[1], ","))
+		authRouters[t[1]] = eng
+	}
+	self := chf_context.GetSelf()
+	self.OAuth2Required = true
+	self.NrfCertPem = nrfCertPem
+	pb, _ := unhex(t[3])
+	supi := authSupi()
+	parts := strings.Split(string(pb), "/")
+	for i, p := range parts {
+		if strings.HasPrefix(p, ":") {
+			parts[i] = supi + "_1"
+		}
+	}
+	path := strings.Join(parts, "/")
+	body, _ := json.Marshal(map[string]interface{}{
+		"subscriberIdentifier":     supi,
+		"nfConsumerIdentification": map[string]interface{}{"nFName": "smf", "nodeFunctionality": "SMF"},
+		"invocationSequenceNumber": 1, "invocationTimeStamp": time.Now().Format(time.RFC3339),
+	})
+	good := mkToken("valid")
+	bads := []string{"wrong-key", "v-sigchar"}
+	badTok := []string{mkToken(bads[0]), mkToken(bads[1])}
+	serve := func(tok string) int {
+		req := httptest.NewRequest(t[2], path, bytes.NewReader(body))
+		req.Header.Set("Content-Type", "application/json")
+		req.Header.Set("Authorization", tok)
+		w := httptest.NewRecorder()
+		eng.ServeHTTP(w, req)
+		return w.Code
+	}
+	var mu sync.Mutex
+	nBad, accepted, first := 0, 0, ""
+	note := func(kind string, code int, when string) {
+		mu.Lock()
+		nBad++
+		if code != 401 {
+			accepted++
+			if first == "" {
+				first = fmt.Sprintf("%s:%d:%s", kind, code, when)
+			}
+		}
+		mu.Unlock()
+	}
+	for r := 0; r < rounds; r++ {
+		var wg sync.WaitGroup
+		start := make(chan struct{})
+		for g := 0; g < 8; g++ {
+			wg.Add(1)
+			go func(g int) {
+				defer wg.Done()
+				<-start
+				if g%2 == 0 {
+					serve(good)
+				} else {
+					k := (g / 2) % 2
+					note(bads[k], serve(badTok[k]), "with-others")
+				}
+			}(g)
+		}
+		close(start)
+		wg.Wait()
+		for k := range bads {
+			note(bads[k], serve(badTok[k]), "afterwards")
+		}
+	}
+	s := fmt.Sprintf("conc bad=%d accepted=%d", nBad, accepted)
+	if first != "" {
+		s += " first=" + first
+	}
+	return s
 }
 
 var authRouters = map[string]*gin.Engine{}
@@ -483,6 +591,9 @@ var authRouters = map[string]*gin.Engine{}
 func runAuth(line string, t []string) string {
 	if len(t) == 1 && t[0] == "end" {
 		return authEnd()
+	}
+	if len(t) > 0 && t[0] == "conc" {
+		return runAuthConc(t)
 	}
 	if (len(t) != 5 && len(t) != 6) || t[0] != "probe" {
 		return "bad-op"
